@@ -1,9 +1,11 @@
 import Agd.Model.ECS
 import Agd.Model.ECSWire
+import Agd.Model.ECSRefresh
 import Agd.Driver.Util
 /-! Line-protocol driver for the C05 model (ECS cache path). -/
 namespace Agd.Driver.C05
 open Agd.ECS Agd.Driver
+open Agd.ECS.Refresh (RF REv Res Ver RAct codeProg)
 
 structure S where
   data : List ((Fam × Nat) × Loc) := []
@@ -20,6 +22,10 @@ structure S where
   gistop : List Nat := []
   gasn : List (LKey × Pfx) := []
   gctry : List (Nat × Pfx) := []
+  /-- wave h: the `Refresh` / `Data` machine of one `geoip.File` and the two database pairs -/
+  rf : RF := RF.init codeProg (fun _ _ => none)
+  rfAtomic : Bool := true
+  rfdb : List ((Ver × Fam × Nat) × Loc) := []
 
 def fam! (s : String) : Fam := if s == "6" then .v6 else .v4
 
@@ -128,6 +134,28 @@ def lruAfter (s : S) (r : Req) (res : St × Out) : S :=
           | none => { s with st := res.1, lruN := [kN0] }
       else { s with st := res.1 }
 
+def ver! (s : String) : Ver := if s == "new" then .new else .old
+
+def S.rfLookup (s : S) : Ver → Fam → Nat → Loc := fun v f a =>
+  match s.rfdb.find? (fun e => e.1 == (v, f, a)) with
+  | some e => e.2
+  | none => ⟨0, 0, 0⟩
+
+def showAct : RAct → String
+  | .lock => "lock" | .unlock => "unlock" | .swap => "swap" | .clear => "clear"
+
+def showRes : Res → String
+  | .none => "ok"
+  | .acted a => showAct a
+  | .hit l => s!"hit {l.ctry} {l.subdiv} {l.asn}"
+  | .miss => "miss"
+  | .blocked => "blocked"
+  | .loc l => s!"loc {l.ctry} {l.subdiv} {l.asn}"
+
+def S.rfEv (s : S) (e : REv) : S × String :=
+  let r := s.rf.ev s.rfLookup s.rfAtomic e
+  ({ s with rf := r.1 }, showRes r.2)
+
 def step (s : S) : List String → S × String
   | ["reset"] => ({}, "ok")
   | ["cap", n, e] => ({ s with capN := nat! n, capE := nat! e }, "ok")
@@ -185,6 +213,22 @@ def step (s : S) : List String → S × String
       | .none => "none"
       | .simple => s!"simple {c.counts.1}"
       | .ecs => s!"ecs {c.counts.1} {c.counts.2}")
+  -- wave h: geoip.File.Refresh interleaved with Data look-ups (Model/ECSRefresh.lean)
+  | ["rfnew", atomic] =>
+    ({ s with rf := RF.init codeProg (fun _ _ => none), rfAtomic := bool! atomic, rfdb := [] }, "ok")
+  | ["rfloc", v, f, a, c, sd, asn] =>
+    ({ s with rfdb := ((ver! v, fam! f, nat! a), ⟨nat! c, nat! sd, nat! asn⟩) :: s.rfdb }, "ok")
+  -- the refresh fails before its critical section (a file cannot be read, a scan fails): nothing changes
+  | ["rffail"] => ({ s with rf := { s.rf with prog := [] } }, "ok")
+  | ["rfstep"] => if s.rf.prog.isEmpty then (s, "done") else s.rfEv .step
+  | ["rfget", f, a] => s.rfEv (.get (fam! f) (nat! a))
+  | ["rffill", f, a] => s.rfEv (.fill (fam! f) (nat! a))
+  | ["rfflush", i] => s.rfEv (.flush (nat! i))
+  | ["rflook", f, a] =>
+    let r := s.rf.look s.rfLookup s.rfAtomic (fam! f) (nat! a)
+    ({ s with rf := r.1 }, showRes r.2)
+  | ["rfstate"] =>
+    (s, s!"ver={if s.rf.ver == .new then "new" else "old"} locked={showB s.rf.locked} left={s.rf.prog.length}")
   | _ => (s, "bad-op")
 
 def main : IO Unit := loop step {}
